@@ -151,7 +151,8 @@ def gen(rng, d=0, jsonmode=True):
             base = rng.choice([2 ** 53, 2 ** 63, 10 ** 18 * 9, 2 ** 64])
             keys = keys + [base + 2, base + 1, base, base - 1][:rng.randint(2, 4)]
         # small ints and the keywords that are equal to them (never both in one dict), None
-        extra = rng.choice([[0, 1], [True, False], [None, 1], [0, True], [False, 1, None], [2, 0]])
+        extra = rng.choice([[0, 1], [True, False], [None, 1], [0, True], [False, 1, None], [2, 0], [None, True],
+                            [None, True, False], [None, True]])
         keys = keys + extra[:rng.randint(1, len(extra))]
     if rng.random() < 0.12:
         # keys that agree in a long leading part (paths below one directory, qualified names of one package)
